@@ -8,12 +8,12 @@ import (
 	"fmt"
 	"os"
 
+	_ "buf.build/gen/go/bufbuild/protovalidate/protocolbuffers/go/buf/validate"
+	_ "github.com/pentops/j5/gen/j5/ext/v1/ext_j5pb"
+	_ "github.com/pentops/j5/gen/j5/list/v1/list_j5pb"
 	"google.golang.org/protobuf/encoding/prototext"
 	"google.golang.org/protobuf/proto"
 	"google.golang.org/protobuf/types/descriptorpb"
-	_ "github.com/pentops/j5/gen/j5/ext/v1/ext_j5pb"
-	_ "github.com/pentops/j5/gen/j5/list/v1/list_j5pb"
-	_ "buf.build/gen/go/bufbuild/protovalidate/protocolbuffers/go/buf/validate"
 )
 
 func main() {
